@@ -19,7 +19,7 @@ RULE = (
     "case = (back end, generated host query, graft kind, graft position = index of the numeric / column production it replaces). asserted "
     "catalogue: operators // << >> | ^ & @ ~, comparison chains, in / is, Aggregate(f) and Aggregate(f, g), slices, + - * / % ** unary and "
     "comparison with a collection operand, raw-object output columns (collection, singleton, First() of objects, object in a tuple), sequence "
-    "operators on a scalar, a member or method of a number / bool, wrong number of column names, getAttribute, math.sin module calls, keyword arguments (silently dropped before the fix), metadata without / with unknown "
+    "operators on a scalar, a member or method of a number / bool, arithmetic with a string or an object operand, wrong number of column names, getAttribute, math.sin module calls, keyword arguments (silently dropped before the fix), metadata without / with unknown "
     "metadata_type, with a missing or unknown key. non-trivial = graft at lambda depth >= 2 or behind a rewrite (First-method, fused "
     "Select/Where, ifexp arm, and/or operand); distinct by (graft kind, depth, host shape)."
 )
@@ -33,6 +33,7 @@ NUM_GRAFTS = [
     "agg-1", "agg-2", "slice", "slice-step", "scalar-Select", "scalar-Count", "scalar-Where", "scalar-First", "scalar-Sum", "math-module",
     "getAttribute", "kwarg-method", "kwarg-function", "kwarg-aggregate", "kwarg-collection",
     "num-member", "num-method", "bool-member", "bool-method", "num-member-chain",
+    "num-op-str", "str-op-num", "num-op-obj", "obj-op-num", "agg-obj",
 ]
 COL_GRAFTS = ["raw-collection", "raw-singleton", "raw-first-object", "raw-object-var", "raw-objvec"]
 TOP_GRAFTS = ["names-too-few", "names-too-many", "md-no-type", "md-unknown-type", "md-missing-key", "md-unknown-key"]
@@ -76,6 +77,19 @@ class GraftGen(QGen):
                   "num-member-chain": f"(({t} + {M}).foo.bar + 1)"}
         if k in simple:
             return simple[k]
+        if k in ("num-op-str", "str-op-num"):
+            op = self.pick(["+", "-", "*", "/", "%"])
+            return f"(({t}) {op} 's{M}')" if k == "num-op-str" else f"('s{M}' {op} ({t}))"
+        if k in ("num-op-obj", "obj-op-num", "agg-obj"):
+            objs = self.obj_sources(scope, 0)
+            if not objs:
+                return None
+            o = self.pick(objs)[0]
+            op = self.pick(["+", "-", "*", "/", "%"])
+            if k == "agg-obj":
+                s_ = self._collection_text(scope)
+                return f"({s_}.Aggregate({M}.5, lambda acc, v: v) + 1)" if s_ else None
+            return f"((({t}) + {M}.5) {op} {o})" if k == "num-op-obj" else f"({o} {op} (({t}) + {M}.5))"
         if k == "kwarg-function":
             return f"sin({t}, extra={M})"
         if k == "kwarg-method":
@@ -287,7 +301,7 @@ def check(c):
 
         try:
             a2 = make_executor(c["backend"]).apply_ast_transformations(ast.parse(c["text"], mode="eval").body)
-            alive = any(isinstance(n, ast.Constant) and n.value == MARK for n in ast.walk(a2))
+            alive = any(isinstance(n, ast.Constant) and str(MARK) in str(n.value) for n in ast.walk(a2))
         except Exception:
             alive = True
         if not alive:
